@@ -251,6 +251,22 @@ def scanLoop : Nat → Nat → Bytes → List Entry → Outcome (List Entry × B
     | .crash => .crash
     | .outOfFuel => .outOfFuel
 
+/-- `lazyFileReader::needKW`: compares byte by byte and CONSUMES what it compared, the mismatching byte included -/
+def needKW : Bytes → Bytes → Bool × Bytes
+  | [], s => (true, s)
+  | _ :: _, [] => (false, [])
+  | k :: ks, c :: r => if k == c then needKW ks r else (false, r)
+
+/-- `lazyFileReader::initP21` after a data section has been read: `none` = no further section is read (end of file, or
+    "Corrupted file"), `some s` = a section reader is started on `s` -/
+def nextSection (s : Bytes) : Option Bytes :=
+  match needKW "END-ISO-10303-21;".toList (skipWS s) with
+  | (true, _) => none
+  | (false, r) =>
+    match needKW "DATA".toList r with
+    | (true, r2) => some r2
+    | (false, _) => none
+
 /-- scan a data section (the bytes after `DATA;`) -/
 def scan (s : Bytes) : Outcome (List Entry × Bool) :=
   scanLoop (s.length + 1) (4 * s.length + 16) s []
